@@ -616,6 +616,25 @@ theorem revoked_to_local_deadline_is_counterparty_csv (h csv holderCsv cur : Nat
 
 example : getHeightTimer 140 (toLocalSpendableHeight 100 42 2016) [.revokedOutput] = 141 := by decide
 
+/-- **justice_claim_output_and_fee** — the arithmetic half of "consensus-valid justice transactions" (`compute_package_output`,
+    `compute_fee_from_spent_amounts`, `feerate_bump`, all TRANSLATED): whenever a self-funded claim over inputs worth `amt` is built
+    with predicted weight `w`, its single output is never below the dust limit; the fee it is computed from covers the recorded feerate
+    over EVERY actual weight `≤ w` (`package_weight`, translated into `packageWeight` / `inputWeight`, is compared with the real weight of
+    every broadcast justice transaction by the harness, and asserted by generate_claim itself); output + fee = inputs exactly whenever
+    the inputs leave at least dust after the fee — always on the first issue of a claim worth at least twice the dust limit, where the
+    fee is at most half of the inputs. -/
+theorem justice_claim_output_and_fee (amt w dust prev : Nat) (s : FeerateStrategy) (est out rate : Nat) (hd : 0 < dust)
+    (h : computePackageOutput amt w dust prev s est = some (out, rate)) :
+    dust ≤ out ∧ ∃ fee, (∀ actual, actual ≤ w → rate * actual / 1000 ≤ fee) ∧
+      (dust ≤ amt - fee → out + fee = amt) ∧ (prev = 0 → 2 * dust ≤ amt → out + fee = amt) := by
+  obtain ⟨h1, fee, hout, hfee, hhalf⟩ := package_output_sound amt w dust prev s est out rate h
+  refine ⟨h1, fee, hfee, fun hle => ?_, fun hp h2 => ?_⟩
+  · rw [hout, pf_nat_max_eq]; omega
+  · have := hhalf hp
+    rw [hout, pf_nat_max_eq]; omega
+
+example : computePackageOutput 100000 600 330 0 .forceBump 2000 = some (98800, 2000) ∧ packageWeight 22 [inputWeight false true .revokedHTLCOutput, inputWeight false false .revokedOutput] = 892 := by decide
+
 variable {α : Type} [DecidableEq α]
 
 /-- **package_split_never_drops** — the split loop of update_claims_view_from_matched_txn (split_package for every input of a confirmed
